@@ -195,6 +195,13 @@ fn run_case(seed: u64, idx: u64, _tier: Tier, out: &mut CaseOut) {
         if let Outcome::Ok(cv) = &cross {
             routes.push(("render_to_string(tree built under another decorator)", cv[i].clone()));
         }
+        if i == 0 {
+            if let Outcome::Ok((r1, r2)) = render_dom_twice(&cfg, &input, w) {
+                routes.push(("render_to_string(first conversion of a kept DOM)", r1));
+                routes.push(("render_to_string(second conversion of the same DOM)", r2));
+            }
+            out.evals += 2;
+        }
         if cfg.deco == Deco::Rich {
             routes.push(("coloured(identity)", render_coloured(&cfg, &input, w)));
             out.evals += 1;
